@@ -340,3 +340,7 @@ TEXT['C17']['text'] += (' Cancellation is exercised on a loop in the top-level f
 TEXT['C14']['text'] += (' Payloads include valid encodings whose byte strings are not padded to whole words (every length modulo 32) and canonical encodings '
                         'behind a few stray bytes.')
 TEXT['C19']['text'] += (' SELFDESTRUCT frames (suicide entries of the flat tracer) are leaves of the generated trees.')
+TEXT['C01']['text'] += (' Interpreter loop (interp_tracer_invisible, Props/InterpJournal.lean + InterpTables.lean): on every instruction table of '
+                        'go-ethereum v1.12.0 - to which the fork\'s tables are equal outside 0xe0-0xe7 - a run of the loop model from two states that differ '
+                        'in the Artela tracer only gives, for every program, input and iteration count, results that differ in the tracer only: over the '
+                        'standard instruction set the state-change tracer and call-tree recorder cannot influence execution.')
